@@ -44,10 +44,25 @@ func (l slowListener) Accept() (net.Conn, error) {
 	return slowConn{c, l.d}, nil
 }
 
-// pingFlood: one subscription produces results while the client sends protocol pings (graphql-transport-ws) and the
-// keep-alive tickers run: every frame must arrive whole, all results then one complete, a pong per ping, and the
-// transport must not report an error or hang.
-func pingFlood(meta *gen.Meta) int {
+type lockFrame struct {
+	Writer int    `json:"writer"`
+	Kind   string `json:"kind"`
+	N      int    `json:"n"`
+}
+
+type lockCase struct {
+	Ops      int         `json:"operations"`
+	Results  int         `json:"results_per_operation"`
+	Pings    int         `json:"pings"`
+	Observed []lockFrame `json:"observed"`
+}
+
+// pingFlood: nOps subscriptions produce results while the client sends protocol pings (graphql-transport-ws) and the
+// ping ticker runs: every frame must arrive whole, all results of an operation then its one complete, a pong per
+// ping, and the transport must not report an error or hang.  The received frames, each attributed to the goroutine
+// that writes it (0: read loop - acknowledgement and pongs; 1..nOps: the operations; nOps+1: the ping ticker), are
+// also a case for the lock model (Model.WsLock, Corr_C11.wslock_*).
+func pingFlood(meta *gen.Meta, cf *gen.CaseFile, descr *[]any, nOps int) int {
 	const results, pings = 60, 60
 	var errorFuncCalls int64
 	es := &graphql.ExecutableSchemaMock{
@@ -87,17 +102,21 @@ func pingFlood(meta *gen.Meta) int {
 		wmu.Unlock()
 	}
 	send(`{"type":"connection_init"}`)
-	send(`{"type":"subscribe","id":"1","payload":{"query":"subscription { tick }"}}`)
+	for op := 1; op <= nOps; op++ {
+		send(fmt.Sprintf(`{"type":"subscribe","id":"%d","payload":{"query":"subscription { tick }"}}`, op))
+	}
 	go func() {
-		for i := 0; i < pings; i++ {
-			send(`{"type":"ping"}`)
+		for i := 1; i <= pings; i++ {
+			send(fmt.Sprintf(`{"type":"ping","payload":{"n":%d}}`, i))
 			time.Sleep(150 * time.Microsecond)
 		}
 	}()
-	next, pongs, completes, malformed := 0, 0, 0, 0
-	deadline := time.Now().Add(6 * time.Second)
+	next, pongs, completes, malformed, serverPings := 0, 0, 0, 0, 0
+	deadline := time.Now().Add(8 * time.Second)
 	var problems []string
-	for completes == 0 || pongs < pings {
+	var seq []lockFrame
+	completed := map[string]bool{}
+	for completes < nOps || pongs < pings {
 		_ = conn.SetReadDeadline(deadline)
 		_, b, err := conn.ReadMessage()
 		if err != nil {
@@ -105,27 +124,41 @@ func pingFlood(meta *gen.Meta) int {
 			break
 		}
 		var f struct {
-			Type string `json:"type"`
-			ID   string `json:"id"`
+			Type    string `json:"type"`
+			ID      string `json:"id"`
+			Payload struct {
+				N    int `json:"n"`
+				Data struct {
+					N int `json:"n"`
+				} `json:"data"`
+			} `json:"payload"`
 		}
 		if json.Unmarshal(b, &f) != nil {
 			malformed++
 			continue
 		}
+		w := 0
+		fmt.Sscanf(f.ID, "%d", &w)
 		switch f.Type {
 		case "next":
 			next++
-			if completes > 0 {
+			if completed[f.ID] {
 				problems = append(problems, "a result after the completion")
 			}
+			seq = append(seq, lockFrame{w, "next", f.Payload.Data.N})
 		case "complete":
 			completes++
+			completed[f.ID] = true
+			seq = append(seq, lockFrame{w, "complete", 0})
 		case "pong":
 			pongs++
-		case "ping", "connection_ack":
-			if f.Type == "ping" {
-				send(`{"type":"pong"}`)
-			}
+			seq = append(seq, lockFrame{0, "pong", f.Payload.N})
+		case "connection_ack":
+			seq = append(seq, lockFrame{0, "connection_ack", 0})
+		case "ping":
+			serverPings++
+			seq = append(seq, lockFrame{nOps + 1, "ping", 0})
+			send(`{"type":"pong"}`)
 		default:
 			problems = append(problems, "unexpected frame "+string(b))
 		}
@@ -133,8 +166,8 @@ func pingFlood(meta *gen.Meta) int {
 	if malformed > 0 {
 		problems = append(problems, fmt.Sprintf("%d frames that are not JSON", malformed))
 	}
-	if next != results || completes != 1 {
-		problems = append(problems, fmt.Sprintf("%d results and %d completions (expected %d and 1)", next, completes, results))
+	if next != results*nOps || completes != nOps {
+		problems = append(problems, fmt.Sprintf("%d results and %d completions (expected %d and %d)", next, completes, results*nOps, nOps))
 	}
 	if pongs != pings {
 		problems = append(problems, fmt.Sprintf("%d pongs for %d pings", pongs, pings))
@@ -144,8 +177,34 @@ func pingFlood(meta *gen.Meta) int {
 	}
 	if len(problems) > 0 {
 		meta.Direct = append(meta.Direct, gen.DirectFinding{Signature: "frames-written-concurrently-or-lost",
-			What:   "one subscription producing results while the client pings, slow peer: " + strings.Join(problems, "; "),
-			Replay: map[string]any{"results": results, "pings": pings, "observed": map[string]int{"next": next, "pong": pongs, "complete": completes}}})
+			What:   fmt.Sprintf("%d subscription(s) producing results while the client pings, slow peer: ", nOps) + strings.Join(problems, "; "),
+			Replay: map[string]any{"operations": nOps, "results": results, "pings": pings, "observed": map[string]int{"next": next, "pong": pongs, "complete": completes}}})
 	}
+	// the case for the lock model: each writer's program as the protocol fixes it, and what was seen on the wire
+	fr := func(kind string, n int) string { return fmt.Sprintf("(%s, %s)", gen.Str(kind), gen.Z(int64(n))) }
+	var progs []string
+	w0 := []string{fr("connection_ack", 0)}
+	for i := 1; i <= pings; i++ {
+		w0 = append(w0, fr("pong", i))
+	}
+	progs = append(progs, gen.List(w0))
+	for op := 1; op <= nOps; op++ {
+		var w []string
+		for i := 1; i <= results; i++ {
+			w = append(w, fr("next", i))
+		}
+		progs = append(progs, gen.List(append(w, fr("complete", 0))))
+	}
+	var wt []string
+	for i := 0; i < serverPings; i++ {
+		wt = append(wt, fr("ping", 0))
+	}
+	progs = append(progs, gen.List(wt))
+	var out []string
+	for _, x := range seq {
+		out = append(out, fmt.Sprintf("(%s, %s)", gen.Nat(x.Writer), fr(x.Kind, x.N)))
+	}
+	cf.Add(fmt.Sprintf("{| wl_progs := %s; wl_out := %s |}", gen.List(progs), gen.List(out)))
+	*descr = append(*descr, lockCase{Ops: nOps, Results: results, Pings: pings, Observed: seq})
 	return 1
 }
